@@ -91,6 +91,10 @@ pub fn cases() -> Vec<Case> {
         ("() -> int", vec!["() -> int { return 1 }"]),
         ("() -> int|string", vec!["() -> int { return 1 }", "() -> string { return \"s\" }"]),
         ("(int) -> int", vec!["(x: int) -> int { return x }"]),
+        ("(int) -> bool", vec!["(x: int) -> bool { return x > 1 }"]),
+        ("(int, int) -> int", vec!["(x: int, y: int) -> int { return x + y }"]),
+        ("(int) -> int|(int) -> bool", vec!["(x: int) -> int { return x }", "(x: int) -> bool { return true }"]),
+        ("(int|string) -> int", vec!["(x: int|string) -> int { return 1 }"]),
         ("struct{a: int}", vec!["struct{a := 1}", "struct{a := 1, b := 2}"]),
         ("struct{a: int}|struct{b: int}", vec!["struct{a := 1}", "struct{b := 1}"]),
         ("struct{a: int|string}", vec!["struct{a := \"s\"}"]),
@@ -107,6 +111,40 @@ pub fn cases() -> Vec<Case> {
             let decl = format!("f := (a: {t}) -> any {{ return {form} }};");
             let calls = vs.iter().map(|x| format!("{decl} f({x})")).collect();
             out.push(Case { label: format!("unary:{form}"), decl, calls });
+        }
+    }
+    // statement forms whose operand has a typing rule of its own
+    const STATEMENTS: &[&str] = &[
+        "if a { return 1 } return 2",
+        "if a { return 1 } else if a { return 2 } return 3",
+        "while a { return 1 } return 2",
+        "for x in a { return x } return 0",
+        "(p, q) := a; return p",
+        "(p, q, r) := a; return r",
+        "return match a { 1 => 1, \"s\" => 2, => 3, }",
+        "return match a { x: int => 1, y: string => 2, => 3, }",
+        "return [1, 2][a]",
+        "return [1, 2, 3][a:]",
+        "return [1, 2, 3][:a]",
+        "return [1, 2, 3][::a]",
+        "return \"abc\"[a]",
+        "c := mut a; c = a; return *c",
+        "return a(1)",
+        "return a(1, 2)",
+        "return struct{v := a}.v",
+        "return (a, 1).0",
+        "loop { if a { break } return 1 } return 2",
+        "return [5]~ @ a $]",
+        "return [5]~ ? a $]",
+        "return ([5]~ \\ a).0",
+        "return [5]~ $ 0 a",
+        "return a $ 0 (x: int, y: int) -> int { return x + y }",
+    ];
+    for form in STATEMENTS {
+        for (t, vs) in &uni1 {
+            let decl = format!("f := (a: {t}) -> any {{ {form} }};");
+            let calls = vs.iter().map(|x| format!("{decl} f({x})")).collect();
+            out.push(Case { label: format!("stmt:{}", &form[..form.len().min(24)]), decl, calls });
         }
     }
     // `it $ init f`: every combination of initial-value type, accumulator type and result type
